@@ -47,7 +47,7 @@ ENV = ('ISA', 'GS', 'ST', 'SE', 'GE', 'IEA')
 CTL_IDX = {'ISA': 13, 'GS': 6, 'ST': 2, 'SE': 2, 'GE': 2, 'IEA': 2}
 FAULTS = ['ctl_change', 'ctl_dup', 'ctl_blank', 'ctl_nonnum', 'count_off', 'count_nonnum', 'count_empty',
           'count_missing', 'drop_header', 'drop_trailer', 'dup_header', 'dup_trailer', 'swap_env', 'orphan_trailer',
-          'truncate', 'hl01_gap', 'hl01_repeat', 'hl02_closed', 'hl02_later', 'hl02_nonnum', 'lx_gap',
+          'truncate', 'hl01_gap', 'hl01_repeat', 'hl02_closed', 'hl02_later', 'hl02_nonnum', 'hl02_absent', 'lx_gap',
           'body_drop', 'body_dup', 'trailer_ctl_missing', 'body_empty', 'clm_drop']
 
 
@@ -167,7 +167,7 @@ def apply_fault(segs, kind, rng, pos=None):
             return False
         del segs[where:]
         return True
-    if kind in ('hl01_gap', 'hl01_repeat', 'hl02_closed', 'hl02_later', 'hl02_nonnum'):
+    if kind in ('hl01_gap', 'hl01_repeat', 'hl02_closed', 'hl02_later', 'hl02_nonnum', 'hl02_absent'):
         i = pick(idxs(segs, lambda i, s: s[0] == 'HL' and len(s) > 2))
         if i is None:
             return False
@@ -183,6 +183,8 @@ def apply_fault(segs, kind, rng, pos=None):
             s[2] = str(int(s[1]) + rng.randint(0, 3))
         elif kind == 'hl02_nonnum':
             s[2] = rng.choice(['X', '1A', ' ', '+' + s[2], s[2] + '_0'])
+        elif kind == 'hl02_absent':
+            del s[2:]           # the segment ends before HL02: a root, like a blank HL02
         else:
             # a parent that exists but whose subtree is closed: any earlier HL of this set not on the chain
             j = i - 1
@@ -196,7 +198,7 @@ def apply_fault(segs, kind, rng, pos=None):
             byid = {h[1]: h for h in earlier}
             while cur and cur in byid and cur not in chain:
                 chain.append(cur)
-                cur = byid[cur][2]
+                cur = byid[cur][2] if len(byid[cur]) > 2 else ''
             cands = [h[1] for h in earlier if h[1] not in chain]
             if not cands:
                 return False
@@ -273,8 +275,21 @@ def generate(rng, tier, run, seed=0):
     text = envgen.serialise(segs, seg_term, '*', ':', eol)
     plan = _c01.gen_plan(rng, text, 8192, seg_term)
     full = rng.random() < 0.08
-    return {'segs': segs, 'faults': fired, 'seg_term': seg_term, 'eol': eol, 'plan': plan,
+    case = {'segs': segs, 'faults': fired, 'seg_term': seg_term, 'eol': eol, 'plan': plan,
             'check_lx': True if full else rng.random() < 0.7, 'bufsize': rng.choice([8192, 8192, 64, 7]), 'full': full}
+    if rng.random() < 0.08 and len(segs[-1]) > 1 and segs[-1][-1].strip() != '':
+        # stream fault: the input ends right after the last segment's data, its terminator never arrives; the segments
+        # (and so every envelope finding) are the same
+        case['noterm'] = True
+        case['plan'] = _c01.gen_plan(rng, render(case), 8192, seg_term)
+    return case
+
+
+def render(case):
+    text = envgen.serialise(case['segs'], case['seg_term'], '*', ':', case['eol'])
+    if case.get('noterm') and len(case['segs']) > 1:      # the ISA's own terminator is part of the 106-character header
+        text = text[:len(text) - len(case['seg_term'] + case['eol'])]
+    return text
 
 
 # ------------------------------------------------------------------ execution
@@ -299,10 +314,12 @@ def execute(case):
     out = core.Outcome()
     log = core.EventLog()
     segs = case['segs']
-    text = envgen.serialise(segs, case['seg_term'], '*', ':', case['eol'])
+    text = render(case)
     rc = E.recount(segs, case['check_lx'])
     for f in case['faults']:
         out.fault(f)
+    if case.get('noterm'):
+        out.fault('stream:last_terminator_missing')
     if case.get('full'):
         # the same stream through a full validation: the envelope errors must reach the error tree (isa/gs/st lists,
         # HL/LX as segment errors); the body segments of a skeleton are not map conformant, which is irrelevant here
@@ -330,9 +347,6 @@ def execute(case):
         want = rc.multiset()
         if rc.nested:
             g, w = dict(got), dict(want)
-            if rc.hl2_dontcare:
-                g.pop(('seg', 'HL2'), None)
-                w.pop(('seg', 'HL2'), None)
             if g != w:
                 missing = sorted(k for k in w if g.get(k, 0) < w[k])
                 extra = sorted(k for k in g if g[k] > w.get(k, 0))
@@ -375,9 +389,7 @@ def execute(case):
     if rc.nested:
         g, w = dict(got), dict(want)
         if rc.hl2_dontcare:
-            g.pop(('seg', 'HL2'), None)
-            w.pop(('seg', 'HL2'), None)
-            out.probe('hl2-dontcare')
+            out.probe('hl2-parent-in-closed-tree')      # a parent under an earlier root: closed, so wrong (no longer relaxed)
         if not case['check_lx']:
             g.pop(('seg', 'LX'), None)
         if g != w:
@@ -411,7 +423,7 @@ def shrink(case, still):
         return still(dict(best, segs=head + sub))
     rest = core.ddmin(rest, t, 300)
     best = dict(best, segs=head + rest)
-    for k, v in (('plan', {'kind': 'exact'}), ('bufsize', 8192), ('eol', ''), ('seg_term', '~')):
+    for k, v in (('noterm', False), ('plan', {'kind': 'exact'}), ('bufsize', 8192), ('eol', ''), ('seg_term', '~')):
         c = dict(best, **{k: v})
         if still(c):
             best = c
